@@ -10,8 +10,8 @@ from vlib import core, prog, physics, h5oracle
 
 def run(ctx):
     sdir = ctx.scratch()
-    n = 60 if ctx.tier == "thorough" else 10
-    fracs = [0.05, 0.3, 0.45, 0.5, 0.55, 0.7, 0.92, 0.999, 0.501, 0.499]
+    n = 70 if ctx.tier == "thorough" else 14
+    fracs = [0.05, 0.55, 0.3, 0.6, 0.45, 0.65, 0.7, 0.52, 0.92, 0.999, 0.501, 0.499, 0.58, 0.75]
 
     def one(i):
         r = core.Rng("c06prog", ctx.seed, i)
@@ -20,10 +20,10 @@ def run(ctx):
         g = r.choice([32, 48, 64])
         o = dict(GridSize=g, StepsPerTs=r.choice([64, 100]), rotations=0.25, outstep=r.choice([4, 8]), SavePhaseSpace=0, RenormalizeCharge=-1,
                  padding=r.choice([2.0, 8.0]))
-        nbk = r.choice([2, 3, 3])
+        nbk = [3, 4, 5, 2, 3][i % 5]             # (truncating variants of the spacing arithmetic differ from rounding only for >= 3 buckets)
         cur = [round(r.loguniform(1e-4, 6e-4), 7) for _ in range(nbk)]
-        if nbk == 3 and r.chance(0.5):
-            cur[1] = 0.0
+        if nbk >= 3 and r.chance(0.5):
+            cur[r.randint(1, nbk - 2)] = 0.0
         o["BunchCurrent"] = cur
         # aim at spacing (in cells) = k + frac with the wanted fractional part
         want_frac = fracs[i % len(fracs)]
